@@ -179,7 +179,7 @@ struct Ctx {
     id_t vdiv(id_t a, id_t b) { mpq_class cb;
         if (vis_const(b,cb)) { if (cb==0) throw div_by_zero(); Val x=vals[a]; return mkval(pscale(x.n, mpq_class(1)/cb), x.d); }
         assume_nz(b);
-        if (havoc_div) { std::string hn="h!"+std::to_string(nhavoc++); id_t h=vvar(hn, 1.0); havocs.push_back({h,a,b}); havoc_of_var[var(hn,1.0)]=havocs.size()-1; return h; }
+        if (havoc_div) { nhavoc++; std::string hn="h!"+std::to_string(a)+"_"+std::to_string(b); /* keyed by the operands: identical computations get identical cut variables */ id_t h=vvar(hn, 1.0); havocs.push_back({h,a,b}); havoc_of_var[var(hn,1.0)]=havocs.size()-1; return h; }
         Val x=vals[a], y=vals[b]; const PolyV yn=polys[y.n];
         id_t n=pmul_mono(x.n,y.d,1); id_t d=x.d;
         if (yn.size()==1) { d=mmul(d,yn[0].first,nullptr); n=pscale(n,mpq_class(1)/yn[0].second); } else d=mmul(d,sumatom_mono(y.n),nullptr);
@@ -224,6 +224,7 @@ struct Ctx {
     // ------------------------------------------------------------- path state
     std::vector<bool> prefix; size_t pos=0; std::vector<Cond> pc; size_t nforks_total=0, max_depth=200;
     struct Work { std::vector<bool> prefix; }; std::vector<Work> work;
+    size_t undecided_budget=2;   // flipped prefixes whose feasibility the solver cannot decide in time are explored only this many times per case
     bool need_witness=false; void acquire_witness();   // defined after the solver
     bool concrete_mode=false;          // replay: every variable is a constant, no forking expected
     // events
@@ -395,10 +396,10 @@ inline bool eval_f_tol(const F &f, double tol) { switch (f.k) {
 
 // ------------------------------------------------------------------ solver process (z3 -in), one per harness process
 struct Solver {
-    pid_t pid=-1; int wfd=-1, rfd=-1; std::string buf; double total_s=0; size_t nq=0; std::string cmd="z3"; int timeout_ms=20000; int feas_timeout_ms=1000;
+    pid_t pid=-1; int wfd=-1, rfd=-1; std::string buf; double total_s=0; size_t nq=0; std::string cmd="z3"; int timeout_ms=20000; int feas_timeout_ms=600;
     std::string dump_dir; size_t dump_max=0, dumped=0;
     void start() { int in[2], out[2]; if (pipe(in) || pipe(out)) throw std::runtime_error("pipe"); pid=fork();
-        if (pid==0) { dup2(in[0],0); dup2(out[1],1); dup2(out[1],2); close(in[1]); close(out[0]); execlp(cmd.c_str(), cmd.c_str(), "-in", "-smt2", (char*)0); _exit(127); }
+        if (pid==0) { dup2(in[0],0); dup2(out[1],1); dup2(out[1],2); close(in[1]); close(out[0]); execlp(cmd.c_str(), cmd.c_str(), "-in", "-smt2", "-memory:3500", (char*)0); _exit(127); }
         close(in[0]); close(out[1]); wfd=in[1]; rfd=out[0]; buf.clear();
         send("(set-option :pp.decimal false)\n"); }
     void stop() { if (pid>0) { close(wfd); close(rfd); kill(pid,SIGKILL); int st; waitpid(pid,&st,0); pid=-1; } }
@@ -442,7 +443,7 @@ inline std::string jesc(const std::string &s) { std::string r; for (char ch : s)
 struct Violation { std::string casename, obligation, detail; std::map<std::string,std::string> model; std::vector<bool> prefix; bool have_model; };
 struct Report {
     size_t obligations=0, discharged=0, queries=0, q_unsat=0, q_sat=0, q_unknown=0, paths=0, paths_pruned=0, paths_unexplored=0, paths_stopped=0, reach_sat=0, reach_unsat=0, reach_unknown=0, trivial=0;
-    size_t solver_errors=0; std::string last_error; size_t witness_unknown=0; std::set<std::string> unexplored_cases;
+    size_t solver_errors=0; std::string last_error; size_t witness_unknown=0, paths_undecided_skipped=0; std::set<std::string> unexplored_cases;
     std::vector<Violation> violations; std::vector<std::string> inconclusive; std::vector<std::string> samples; std::set<std::string> assumptions; std::map<std::string,size_t> stops;
     size_t max_query_bytes=0;
 };
@@ -556,15 +557,18 @@ inline void validate_nf(sym s) { Ctx &c=ctx(); if (!s.valid()) return; QEval &q=
 
 // ------------------------------------------------------------------ exploration driver
 struct infeasible : engine_stop { infeasible() : engine_stop{"infeasible prefix"} {} };
+struct undecided : engine_stop { undecided() : engine_stop{"undecided prefix"} {} };
 inline void Ctx::acquire_witness() { need_witness=false; Emit e; int full=solver().timeout_ms; solver().timeout_ms=std::min(full,solver().feas_timeout_ms); QueryResult q=run_query({},e,true); solver().timeout_ms=full;
     if (q.verdict=="unsat") throw infeasible();
     if (q.verdict=="sat") { std::vector<double> w(vars.size(), std::nan("")); for (auto &kv : q.model) if (kv.second.rational) { auto it=var_ix.find(kv.first); if (it!=var_ix.end()) w[it->second]=kv.second.d; } set_witness(w); }
-    else report().witness_unknown++; }
-struct Options { size_t max_paths=64; size_t max_depth=60; bool check_reach=true; };
+    else { report().witness_unknown++; if (undecided_budget==0) throw undecided(); --undecided_budget; } }
+struct Options { size_t max_paths=64; size_t max_depth=60; bool check_reach=true; size_t max_undecided=2; double budget_s=40; };
 template<class Body> inline void explore(const std::string &casename, Body body, const Options &opt=Options()) {
-    Ctx &c=ctx(); Report &r=report(); c.max_depth=opt.max_depth; size_t npaths=0;
+    Ctx &c=ctx(); Report &r=report(); c.max_depth=opt.max_depth; c.undecided_budget=opt.max_undecided; size_t npaths=0;
     std::vector<Ctx::Work> todo; todo.push_back(Ctx::Work{}); std::vector<double> nowit;
+    auto t_case=std::chrono::steady_clock::now();
     while (!todo.empty()) {
+        if (npaths>0 && std::chrono::duration<double>(std::chrono::steady_clock::now()-t_case).count() > opt.budget_s) { r.paths_unexplored+=todo.size(); r.unexplored_cases.insert(casename+" (time budget)"); break; }
         if (npaths>=opt.max_paths) { r.paths_unexplored+=todo.size(); r.unexplored_cases.insert(casename); break; }
         Ctx::Work w=todo.back(); todo.pop_back();
         c.reset_path(); c.havoc_epoch++; c.prefix=w.prefix; c.work.clear(); c.set_witness(nowit); c.havocs.clear(); c.havoc_of_var.clear(); c.havoc_raw.clear(); c.nhavoc=0; c.havoc_div=false; c.stage=casename;
@@ -573,6 +577,7 @@ template<class Body> inline void explore(const std::string &casename, Body body,
         try { body(); }
         catch (const engine_stop &s) { stopped=true; why=s.why; }
         if (stopped && why=="infeasible prefix") { r.paths_pruned++; continue; }   // nothing was queued beyond the prefix
+        if (stopped && why=="undecided prefix") { r.paths_undecided_skipped++; continue; }
         npaths++; r.paths++;
         if (stopped) { r.paths_stopped++; r.stops[why]++; }
         if (opt.check_reach && w.prefix.empty()) { Emit e; int full=solver().timeout_ms; solver().timeout_ms=std::min(full,solver().feas_timeout_ms); QueryResult q=run_query({},e,false); solver().timeout_ms=full; if (q.verdict=="sat") r.reach_sat++; else if (q.verdict=="unsat") r.reach_unsat++; else r.reach_unknown++; }
